@@ -44,12 +44,13 @@ Hypothesis Hch : forall n, h_height (ch n) = n.
     pending.Add could make the loop slice out of range or leave a head below
     the store head for good; both are now excluded for every schedule by
     C07_no_panic_any_schedule and C07_quiescent_nothing_pending.)
-    The restriction cannot be dropped on /repo dd38a4c: the statement is FALSE
-    for interleaved learner calls - see C07_interleaved_counterexample and
-    C07_interleaved_counterexample_answer below (honest schedules ending
-    quiescent with the shim head behind the Store, State never finished, or
-    with a spurious errNonAdjacent), replayed on the real code by
-    harness/c03/straddle_test.go. *)
+    The restriction cannot be dropped yet.  On /repo dd38a4c the statement was
+    false for interleaved learner calls because of syncStore.Append's
+    pass-through (finding F23, repaired in 7d16f07: C07_straddling_range_example,
+    C07_straddling_answer_example below).  On 7d16f07 it still is, because of a
+    lost update on the shim's head pointer between concurrent Appends
+    (C07_shim_lost_update_counterexample below; replayed on the real code by
+    harness/c03/straddle_test.go). *)
 Theorem C07_reaches_target_partial : forall (tail : N) (k : nat) (es : list hev) (g : N -> N -> ganswer),
   tail + N.of_nat k + 1 < two64 ->
   let c0 := init_cfg tail (crun ch tail (S k)) in
@@ -225,6 +226,31 @@ Example C07_straddling_answer_example :
             ++ [EL (GList [wch 18; wch 19; wch 20])] ++ repeat (EL GErr) 30 in
   let c := run 10%Z tvf c0 es in
   cx_view c = (21, 21, 21, false, [], LIdle, true, None, 21, true).
+Proof. vm_compute. split; reflexivity. Qed.
+
+(** *** the interleaved form is still false on /repo 7d16f07: a lost update on the shim's head
+
+    syncStore.Append loads its head, checks the list against it and stores the
+    new head later (program counters SL0 / SL1 of a learner call, LApp0 / LApp1
+    of the loop); nothing excludes another Append in between (incomingMu only
+    serialises gossip calls: Head() calls and the sync loop append
+    concurrently).  A call preempted between load and store overwrites a newer
+    head with its older one: honest schedule, quiescent end, nothing pending,
+    no error, every head stored (Store head 20) - but the shim head,
+    State().Height and Syncer.Head() are 18 (Syncer.Head() was 20 before).
+    Replayed on the real code: harness/c03/straddle_test.go TestShimRaceWitness. *)
+Example C07_shim_lost_update_counterexample :
+  let tvf := fun _ _ : hdr => TVOk in
+  let c0 := init_cfg 15 (crun wch 15 3) in
+  let es1 := [EHead (Some (wch 18))] ++ repeat (ET 0) 4                  (* Head() learns 18: inside Append, head 17 loaded, 18 not yet stored into the shim *)
+             ++ [EHead (Some (wch 18))] ++ repeat (ET 1) 7                (* three complete Head() calls learn 18, 19, 20 *)
+             ++ [EHead (Some (wch 19))] ++ repeat (ET 2) 7
+             ++ [EHead (Some (wch 20))] ++ repeat (ET 3) 7 in
+  let es2 := repeat (ET 0) 4 in                                          (* the first call goes on *)
+  let c1 := run 10%Z tvf c0 es1 in
+  let c := run 10%Z tvf c0 (es1 ++ es2) in
+  h_height (local_head c1) = 20 /\
+  cx_view c = (20, 18, 18, false, [], LIdle, true, None, 0, true).
 Proof. vm_compute. split; reflexivity. Qed.
 
 Print Assumptions C07_reaches_target_partial.
